@@ -1,6 +1,7 @@
 import PortusModel.Driver.Lang
 import PortusModel.Driver.Wire
 import PortusModel.Rt.Run
+import PortusModel.Conc.Own
 /-! `RUN`: the runtime model driven by the protocol of /verif/harness/RUN_PROTOCOL.md -/
 namespace Portus.Driver
 open Portus Portus.Lang Portus.Wire Portus.Ipc Portus.Rt
@@ -342,6 +343,9 @@ def runCmd (args : List String) : String :=
           -- handle after the run gives an error (C19.dead_handle_is_err)
           let parked := script.length % 3 = 0 ∧ evs.any (fun e => match e with | .newFlow .. => true | _ => false)
           joinWith " | " ((sortDrRuns evs).map (showEv algs progs) ++
-            [s!"RES {if r == .ok then "OK" else "ERR"} closes={if parked then 0 else 1} strong=1 late={if parked then "ERR" else "NONE"}"])
+            -- reference counts from the ownership model (`Conc/Own`, theorems `C18.stop_handle_balanced`, `close_called_once`,
+            -- `dead_handle_cannot_send`): the caller holds one handle on the flag
+            (let w := Conc.Own.runOps 1 (if parked then [.newHandle, .park] else [.newHandle])
+             [s!"RES {if r == .ok then "OK" else "ERR"} closes={w.closes} strong={w.flag} late={if parked then (if Conc.Own.sendOk w then "OK" else "ERR") else "NONE"}"]))
 
 end Portus.Driver
